@@ -588,6 +588,9 @@ VARIANTS["C05"] = [
 
 # ------------------------------------------------------------------------------------------------ C13
 VARIANTS["C13"] = [
+    V("margin-test-subtracts-on-unsigned", "fire", WE, [("    allowed_idx = (spike_samples > trough_offset) & (", "    allowed_idx = (spike_samples - trough_offset > 0) & (")], ("D6",),
+      "same test for signed times; wraps for uint64 spike times in the first samples"),
+    V("twin-margin-test-signed-cast", "twin", WE, [("    allowed_idx = (spike_samples > trough_offset) & (", "    allowed_idx = (spike_samples.astype(np.int64) - trough_offset > 0) & (")], (), ""),
     V("window-not-forwarded", "fire", WE, [(
         "        snip, df, channel_neighbors, trough_offset=trough_offset,\n        spike_length_samples=spike_length_samples, add_nan_trace=True\n", "        snip, df, channel_neighbors, add_nan_trace=True\n")], ("D1",), "regression of F8a"),
     V("table-args-swapped", "fire", WE, [(
